@@ -40,9 +40,9 @@ def nontrivial(case):
 
 def run(ctx):
     quick = ctx["tier"] == "quick"
-    r = codec.run_simple("C08", ctx, "sort", ["--count", "2500" if quick else "60000", "--maxn", "40"],
+    r = codec.run_simple("C08", ctx, "sort", ["--count", "2000" if quick else "60000", "--maxn", "40"],
                          oracle_aspects=ORACLE, corr_aspects=CORR, nontrivial=nontrivial, timeout=3400)
-    want = 2500 if quick else 60000
+    want = 2000 if quick else 60000
     if r["evaluations"] != want:
         import vlib
         raise vlib.CheckError("sort harness produced %d of %d cases (watchdog stopped early?)" % (r["evaluations"], want))
